@@ -1,2 +1,4 @@
 import DDP.Generated.Keywords
 import DDP.Impl.Scanner
+import DDP.Impl.OrderedMap
+import DDP.Impl.TokenKey
